@@ -688,6 +688,10 @@ func (env *Env) toSeq(v Val) Val {
 	switch v.K {
 	case KSeq:
 		return v
+	case KScalar:
+		if v.Sort == "Str" {
+			return Val{K: KSeq, Fs: []Val{scalar(sx("gs.arr", v.T), "(Array Int Int)"), intv("0"), intv(sx("gs.len", v.T))}}
+		}
 	case KSlice:
 		el := sliceElem(v.Typ)
 		cs := flat(el)
@@ -767,6 +771,12 @@ func (env *Env) evalCall(x ECall) Val {
 			cerr("malformed() on non-interface")
 		}
 		return boolv(e.malformedTerm(v))
+	case "intof":
+		v := env.eval(x.Args[0])
+		if v.K != KIface {
+			cerr("intof on non-interface")
+		}
+		return intv(v.Fs[1].T)
 	case "tagof":
 		v := env.eval(x.Args[0])
 		if v.K != KIface {
@@ -901,13 +911,41 @@ func (e *Engine) declareSpec(sf *SpecFunc) {
 	if body.K != KScalar {
 		cerr("spec %s: body must be scalar", sf.Name)
 	}
-	kw := "define-fun"
-	if sf.Rec {
-		kw = "define-fun-rec"
+	if !sf.Rec {
+		decl := fmt.Sprintf("(define-fun %s (%s) %s %s)", name, strings.Join(ps, " "), specSort(sf.Result), body.T)
+		// definitions must follow those they use: append now (callees were appended during eval)
+		e.ctx.pre = append(e.ctx.pre, decl)
+		return
 	}
-	decl := fmt.Sprintf("(%s %s (%s) %s %s)", kw, name, strings.Join(ps, " "), specSort(sf.Result), body.T)
-	// definitions must follow those they use: append now (callees were appended during eval)
-	e.ctx.pre = append(e.ctx.pre, decl)
+	// Recursive spec functions are encoded with fuel (as in Dafny): the function
+	// unfolds at most twice from every term that occurs in the query, which keeps
+	// quantifier instantiation from looping through the definition.
+	var sorts, args []string
+	for _, p := range sf.Params {
+		switch p.Type {
+		case "seq":
+			sorts = append(sorts, "(Array Int Int)", "Int", "Int")
+			args = append(args, p.Name+".arr", p.Name+".off", p.Name+".len")
+		default:
+			sorts = append(sorts, specSort(p.Type))
+			args = append(args, p.Name)
+		}
+	}
+	call := func(n string) string { return "(" + n + " " + strings.Join(args, " ") + ")" }
+	withFuel := func(b, n string) string {
+		b = strings.ReplaceAll(b, "("+name+" ", "("+n+" ")
+		return b
+	}
+	var b strings.Builder
+	for _, n := range []string{name, name + "!1", name + "!0"} {
+		fmt.Fprintf(&b, "(declare-fun %s (%s) %s)\n", n, strings.Join(sorts, " "), specSort(sf.Result))
+	}
+	vars := strings.Join(ps, " ")
+	fmt.Fprintf(&b, "(assert (forall (%s) (! (= %s %s) :pattern (%s))))\n", vars, call(name), withFuel(body.T, name+"!1"), call(name))
+	fmt.Fprintf(&b, "(assert (forall (%s) (! (= %s %s) :pattern (%s))))\n", vars, call(name+"!1"), withFuel(body.T, name+"!0"), call(name+"!1"))
+	fmt.Fprintf(&b, "(assert (forall (%s) (! (= %s %s) :pattern (%s))))\n", vars, call(name), call(name+"!1"), call(name))
+	fmt.Fprintf(&b, "(assert (forall (%s) (! (= %s %s) :pattern (%s))))", vars, call(name+"!1"), call(name+"!0"), call(name+"!1"))
+	e.ctx.pre = append(e.ctx.pre, b.String())
 }
 
 var quantN int
